@@ -413,6 +413,9 @@ class HdlcFrameReader(MeterReaderBase[HdlcFrame]):
 
         else:
             self._append_to_frame(self.FLAG_SEQUENCE)
+            if len(self._frame) > HdlcFrame.MAX_FRAME_LENGTH:
+                # The maximum frame length applies to flag octets inside a frame too.
+                self._goto_hunt_mode()
 
         return frame_complete
 
